@@ -1,0 +1,22 @@
+//go:build verif
+
+// Contracts for the deductive checker in /verif (read only with -tags verif).
+
+package pkcs
+
+// ---- decryptors of containers read from untrusted input: no panic for any ciphertext and parameters.
+// The cipher factory of a registered cipher follows the cipherCreator contract (/verif/stdlib).
+//@ func cbcDecrypt property C13,C14
+//@   requires block != nil
+//@   heapnonnil
+//@   modifies everything
+//@ func (*ecbBlockCipher).Decrypt property C13,C14
+//@   requires ecb.newBlock != nil
+//@   fnspec newBlock: std:cipherCreator
+//@   heapnonnil
+//@   modifies everything
+//@ func (*cbcBlockCipher).Decrypt property C13,C14
+//@   requires c.newBlock != nil && parameters != nil
+//@   fnspec newBlock: std:cipherCreator
+//@   heapnonnil
+//@   modifies everything
